@@ -207,5 +207,7 @@ func modeIter(_ int, seed int64) {
 			emit(resp)
 		}
 	}
-	emit(map[string]any{"summary": true, "goroutines": runtime.NumGoroutine(), "gomaxprocs": runtime.GOMAXPROCS(0)})
+	sends, full, empty, maxlen, hooked := iterStats()
+	emit(map[string]any{"summary": true, "goroutines": runtime.NumGoroutine(), "gomaxprocs": runtime.GOMAXPROCS(0),
+		"sends": sends, "full": full, "empty": empty, "maxlen": maxlen, "hooked": hooked})
 }
